@@ -52,6 +52,7 @@ type scenario struct {
 	DeadlineUs  int    `json:"deadline_us"` // ctx-deadline: how far in the future
 	Async       bool   `json:"async"`
 	TimeLimitUs int    `json:"time_limit_us"`
+	WithCause   bool   `json:"with_cause,omitempty"` // ctx-cancel / ctx-deadline: the context is built with an explicit cause
 }
 
 type ev struct {
@@ -66,6 +67,8 @@ type trialOut struct {
 	nontrivial bool
 	class      string
 }
+
+var errCause = errors.New("the caller's own reason")
 
 func sourceErr(src string) error {
 	switch src {
@@ -97,13 +100,24 @@ func run(sc scenario) (out trialOut) {
 	var ctxCancel context.CancelFunc = func() {}
 	switch sc.Source {
 	case "ctx-cancel":
-		ctx, ctxCancel = context.WithCancel(ctx)
+		if sc.WithCause {
+			// a cause is extra information for whoever asks context.Cause; the error identifying the cancellation stays
+			// context.Canceled / context.DeadlineExceeded
+			c, cc := context.WithCancelCause(ctx)
+			ctx, ctxCancel = c, func() { cc(errCause) }
+		} else {
+			ctx, ctxCancel = context.WithCancel(ctx)
+		}
 	case "ctx-deadline":
 		d := time.Duration(sc.DeadlineUs) * time.Microsecond
 		if sc.Point == "pre" {
 			d = -time.Second
 		}
-		ctx, ctxCancel = context.WithDeadline(ctx, time.Now().Add(d))
+		if sc.WithCause {
+			ctx, ctxCancel = context.WithDeadlineCause(ctx, time.Now().Add(d), errCause)
+		} else {
+			ctx, ctxCancel = context.WithDeadline(ctx, time.Now().Add(d))
+		}
 	}
 	defer ctxCancel()
 	var er failsafe.ExecutionResult[int]
@@ -497,6 +511,9 @@ func genScenario(t *rapid.T) scenario {
 			srcs = append(srcs, "result-cancel", "result-cancel")
 		}
 		sc.Source = rapid.SampledFrom(srcs).Draw(t, "source")
+		if sc.Source != "result-cancel" {
+			sc.WithCause = rapid.IntRange(0, 3).Draw(t, "withCause") == 0
+		}
 		if sc.Source == "ctx-deadline" {
 			sc.Point = rapid.SampledFrom([]string{"pre", "self", "self"}).Draw(t, "point")
 			sc.DeadlineUs = rapid.IntRange(50, 4000).Draw(t, "deadlineUs")
